@@ -18,11 +18,11 @@ theorem C03_frame (H : Bytes → Bytes) (inp : RunIn) (hwf : FsWF inp.fs)
     (hout : ∀ e ∈ (run H inp).table, e.isPad = false → e.fullTarget ≠ p) :
     (replay inp.fs ((run H inp).ops.take n)).inoOf p = some i ∧
     (replay inp.fs ((run H inp).ops.take n)).content i = inp.fs.content i := by
-  sorry
+  exact RunM.frame H inp hwf hna p i hp hout _ (fun _ h => List.mem_of_mem_take h)
 
 theorem C03_frame_dirs (H : Bytes → Bytes) (inp : RunIn) (n : Nat) (d : Path) (hd : inp.fs.isDir d = true) :
     (replay inp.fs ((run H inp).ops.take n)).isDir d = true := by
-  sorry
+  exact RunM.replay_isDir _ _ hd
 
 /-- nothing new appears elsewhere: a name bound at some instant of the run was bound before or is the export image
     of a non-padding table entry; a directory existing at some instant existed before or is a prefix of such an
@@ -32,6 +32,7 @@ theorem C03_nothing_new (H : Bytes → Bytes) (inp : RunIn) (n : Nat) :
       inp.fs.inoOf q = some j ∨ ∃ e ∈ (run H inp).table, e.isPad = false ∧ e.fullTarget = q) ∧
     (∀ d, (replay inp.fs ((run H inp).ops.take n)).isDir d = true →
       inp.fs.isDir d = true ∨ ∃ e ∈ (run H inp).table, e.isPad = false ∧ Path.isPrefixOf d e.fullTarget.dropLast) := by
-  sorry
+  have h := RunM.nothing_new H inp ((run H inp).ops.take n) (fun _ h => List.mem_of_mem_take h)
+  exact ⟨h.f, h.d⟩
 
 end TB
